@@ -432,12 +432,182 @@ fn run_program(ctx: &Ctx, p: &Program, cons: &Arc<Consensus>) -> Report {
     r
 }
 
+// ---- (e) pause / resume signals --------------------------------------------------------------
+//
+// `resumable_verify_with_signal` pauses wherever the VM notices the pause flag, which depends on
+// thread timing; the deterministic pause points are the DEBUG_PAUSE syscalls of the testdata
+// programs written for this purpose (the repository's own tests install the same syscall).  The
+// driver keeps sending Resume, so every in-script pause is followed by a resume.
+
+#[derive(Clone)]
+struct PauseCtx {
+    printer: ckb_script::types::DebugPrinter,
+    skip: Arc<std::sync::atomic::AtomicBool>,
+}
+
+struct DebugPause {
+    skip: Arc<std::sync::atomic::AtomicBool>,
+}
+
+impl<M: ckb_vm::SupportMachine> ckb_vm::Syscalls<M> for DebugPause {
+    fn initialize(&mut self, _machine: &mut M) -> Result<(), ckb_vm::Error> {
+        Ok(())
+    }
+    fn ecall(&mut self, machine: &mut M) -> Result<bool, ckb_vm::Error> {
+        use ckb_vm::Register;
+        if machine.registers()[ckb_vm::registers::A7].to_u64() != 2178 {
+            return Ok(false);
+        }
+        if self.skip.load(std::sync::atomic::Ordering::SeqCst) {
+            return Ok(true);
+        }
+        Err(ckb_vm::Error::Pause)
+    }
+}
+
+fn pause_syscalls<DL, M>(vm_id: &ckb_script::types::VmId, sg: &ckb_script::types::SgData<DL>, vc: &ckb_script::types::VmContext<DL>, c: &PauseCtx) -> Vec<Box<dyn ckb_vm::Syscalls<M>>>
+where
+    DL: CellDataProvider + HeaderProvider + ExtensionProvider + Send + Sync + Clone + 'static,
+    M: ckb_vm::SupportMachine,
+{
+    let mut v = ckb_script::generate_ckb_syscalls(vm_id, sg, vc, &c.printer);
+    v.push(Box::new(DebugPause { skip: Arc::clone(&c.skip) }));
+    v
+}
+
+fn pause_verifier(rtx: &Arc<ResolvedTransaction>, cons: &Arc<Consensus>, skip: bool) -> TransactionScriptsVerifier<NoData, PauseCtx> {
+    let c = PauseCtx { printer: Arc::new(|_: &Byte32, _: &str| {}), skip: Arc::new(std::sync::atomic::AtomicBool::new(skip)) };
+    TransactionScriptsVerifier::new_with_generator(Arc::clone(rtx), NoData, Arc::clone(cons), env(), pause_syscalls, c)
+}
+
+/// the signal path under a driver that answers every pause with Resume
+fn run_signal(rtx: &Arc<ResolvedTransaction>, cons: &Arc<Consensus>, budget: u64) -> Out {
+    use ckb_script::ChunkCommand;
+    let v = pause_verifier(rtx, cons, false);
+    let (tx, mut rx) = tokio::sync::watch::channel(ChunkCommand::Resume);
+    let done = Arc::new(std::sync::atomic::AtomicBool::new(false));
+    let d2 = Arc::clone(&done);
+    let ticker = std::thread::spawn(move || {
+        while !d2.load(std::sync::atomic::Ordering::SeqCst) {
+            let _ = tx.send(ChunkCommand::Resume);
+            std::thread::sleep(std::time::Duration::from_micros(50));
+        }
+    });
+    let res = crate::node::runtime().block_on(async { tokio::time::timeout(std::time::Duration::from_secs(30), v.resumable_verify_with_signal(budget, &mut rx)).await });
+    done.store(true, std::sync::atomic::Ordering::SeqCst);
+    let _ = ticker.join();
+    match res {
+        Ok(r) => classify(r),
+        Err(_) => Out::Err("signal path did not finish within s".into()),
+    }
+}
+
+fn data_hash(file: &str) -> Vec<u8> {
+    cell_from(load(file), 0).1.raw_data().to_vec()
+}
+
+fn pause_programs() -> Vec<Program> {
+    let p = |files: &[&str], args: Vec<u8>, version: u8| Program { files: files.iter().map(|s| s.to_string()).collect(), args, version, witness_file: None };
+    let mut v = vec![];
+    for ver in 1..=2u8 {
+        v.push(p(&["current_cycles_with_snapshot"], vec![], ver));
+        v.push(p(&["vm_version_with_snapshot"], vec![], ver));
+        v.push(p(&["exec_caller_from_cell_data", "exec_callee_pause"], vec![], ver));
+        let mut a = 1u64.to_le_bytes().to_vec();
+        a.extend(data_hash("is_even.lib"));
+        v.push(p(&["load_is_even_with_snapshot", "is_even.lib"], a, ver));
+        let mut a = 0u64.to_le_bytes().to_vec();
+        a.extend(1u64.to_le_bytes());
+        for lib in ["add1.lib", "mul2.lib", "add1.lib", "mul2.lib", "mul2.lib", "add1.lib", "add1.lib", "div2.lib", "sub1.lib", "div2.lib", "sub1.lib", "div2.lib"] {
+            a.extend(data_hash(lib));
+        }
+        v.push(p(&["load_arithmetic", "add1.lib", "sub1.lib", "mul2.lib", "div2.lib"], a, ver));
+    }
+    v
+}
+
+fn signal_family(ctx: &Ctx, p: &Program, cons: &Arc<Consensus>, pausing: bool) -> Report {
+    let mut r = Report::new();
+    let rtx = build_rtx(p);
+    let label = |what: &str, x: serde_json::Value| json!({"program": p, "what": what, "param": x, "family": "signal"});
+    // un-paused, un-chunked reference
+    let base = classify(pause_verifier(&rtx, cons, true).verify(2_500_000));
+    r.evaluations += 1;
+    let t = match &base {
+        Out::Ok(c) => *c,
+        Out::Err(_) => {
+            r.count("signal_programs_not_succeeding", 1);
+            return r;
+        }
+    };
+    r.count("signal_programs", 1);
+    let mut pauses = 0u64;
+    if pausing {
+        // captured-state path through every in-script pause
+        let v = pause_verifier(&rtx, cons, false);
+        let mut res = v.resumable_verify(u64::MAX);
+        let fin = loop {
+            match res {
+                Ok(VerifyResult::Completed(c)) => break Out::Ok(c),
+                Ok(VerifyResult::Suspended(st)) => {
+                    pauses += 1;
+                    if pauses > 10_000 {
+                        break Out::Err("no progress".into());
+                    }
+                    res = v.resume_from_state(&st, u64::MAX);
+                }
+                Err(e) => break classify(Err(e)),
+            }
+        };
+        r.evaluations += 1;
+        r.transitions += pauses + 1;
+        if fin != base {
+            r.violation(format!("pause-chunks/{}", symptom(&fin, &base)), format!("suspending at each of the program's {pauses} pause points and resuming from the captured state gives {fin:?}, un-paused {base:?}"), label("pause-chunks", json!(null)));
+        }
+        r.max_counter("max_pause_points_in_a_program", pauses);
+    }
+    // the signal path with an unlimited budget
+    let o = run_signal(&rtx, cons, u64::MAX);
+    r.evaluations += 1;
+    r.transitions += pauses + 1;
+    if o != base {
+        r.violation(format!("signal/{}", symptom(&o, &base)), format!("resumable_verify_with_signal(unlimited) with every pause resumed gives {o:?}, un-paused {base:?}"), label("signal-unlimited", json!(null)));
+    } else if pauses > 0 {
+        r.nontrivial.insert(fp(&(p, "signal")));
+    }
+    // budgets around the cost
+    let delta: u64 = if pausing { if ctx.tier.is_thorough() { 400 } else { 60 } } else if ctx.tier.is_thorough() { 40 } else { 4 };
+    let mut budgets: Vec<u64> = (t.saturating_sub(delta)..=t + delta).collect();
+    if pausing {
+        // budgets between the largest pause-free stretch and the total are where a budget that is
+        // refreshed on resume would be noticed
+        budgets.extend([t / 2, t * 2 / 3, t * 3 / 4, t * 9 / 10]);
+    }
+    for b in budgets {
+        let o = run_signal(&rtx, cons, b);
+        r.evaluations += 1;
+        r.transitions += pauses + 1;
+        let want_ok = b >= t;
+        if want_ok && o != base {
+            r.violation("signal-budget/enough-but-differs", format!("resumable_verify_with_signal({b}) = {o:?} although the cost is {t}"), label("signal-budget", json!(b)));
+        }
+        if !want_ok && matches!(o, Out::Ok(_)) {
+            r.violation("signal-budget/succeeds-below-cost", format!("resumable_verify_with_signal({b}) = {o:?}: a run paused and resumed {pauses} times succeeded with a budget below its cost {t}"), label("signal-budget", json!(b)));
+        } else if !want_ok && !is_exceeded(&o) {
+            r.violation("signal-budget/too-small-not-limit-error", format!("resumable_verify_with_signal({b}) = {o:?} although the cost is {t}"), label("signal-budget", json!(b)));
+        }
+        r.outcomes.insert(fp(&("signal-budget", want_ok, pauses.min(2))));
+    }
+    r.states.insert(fp(&(p, "signal")));
+    r
+}
+
 pub fn meta(tier: Tier) -> Meta {
     Meta {
         id: "C05",
         level: "model_checking",
-        rule: "for each (program, VM version) of the table (always_success/failure x v0-2, current_cycles, exec from cell data / witness, infinite_exec, spawn_cases 1..19, spawn strcat / current_cycles / exec / out_of_cycles, load-with-snapshot) with un-chunked cost T: (a) every first split point s in [1,T) when T-1 <= the per-program run budget (counted in the evidence), else the first and last third of the budget plus an odd stride in between, each continued by complete(inf) and by resume_from_state(inf); (b) the whole run in uniform chunks for a geometric ladder of step sizes plus a dense band of tiny steps; (c) all pairs of splits on a grid; (d) every budget in [T-d, T+d], d = 150 (quick) / 600 (thorough), through verify and through resumable_verify+complete. Oracle = verify(HORIZON) of the same resolved transaction (verdict + cycles). states = programs, transitions = chunk executions; non-trivial = a split/step that actually suspended a succeeding program.",
-        assumptions: &["programs are the RISC-V binaries shipped in script/testdata", "the pause-signal path (resumable_verify_with_signal) is not driven in this check", "chunks too small to execute a single step may be refused with the cycle-limit error"],
+        rule: "for each (program, VM version) of the table (always_success/failure x v0-2, current_cycles, exec from cell data / witness, infinite_exec, spawn_cases 1..19, spawn strcat / current_cycles / exec / out_of_cycles, load-with-snapshot) with un-chunked cost T: (a) every first split point s in [1,T) when T-1 <= the per-program run budget (counted in the evidence), else the first and last third of the budget plus an odd stride in between, each continued by complete(inf) and by resume_from_state(inf); (b) the whole run in uniform chunks for a geometric ladder of step sizes plus a dense band of tiny steps; (c) all pairs of splits on a grid; (d) every budget in [T-d, T+d], d = 150 (quick) / 600 (thorough), through verify and through resumable_verify+complete; (e) signals: for the five programs with in-script pause points (v1, v2) the captured-state path through every pause, resumable_verify_with_signal(unlimited) and every budget in [T-d, T+d] plus T/2, 2T/3, 3T/4, 9T/10, and for every succeeding program of the table the signal path for budgets in [T-4, T+4] (40 thorough). Oracle = verify(HORIZON) of the same resolved transaction (verdict + cycles). states = programs, transitions = chunk executions; non-trivial = a split/step that actually suspended a succeeding program.",
+        assumptions: &["programs are the RISC-V binaries shipped in script/testdata", "pause signals: only the deterministic pause points (the DEBUG_PAUSE syscalls of the testdata programs written for it, installed the way the repository's tests do) are driven, each followed by Resume; pauses landing at arbitrary instructions depend on thread timing and are not enumerated", "chunks too small to execute a single step may be refused with the cycle-limit error"],
         bounds: json!({"first_split_runs_per_program": work(tier), "horizon_cycles": HORIZON}),
     }
 }
@@ -470,6 +640,35 @@ pub fn run(ctx: &Ctx) -> Report {
                     r.violation("panic", format!("script verification panicked for {p:?}"), json!({"program": p}));
                     r
                 }
+            }
+        })
+        .collect();
+    for r in rs {
+        report.merge(r);
+    }
+    // (e) signals: the programs with in-script pause points, and every succeeding program of the table
+    let replay_family = ctx.replay.as_ref().map(|p| load_replay_case(p)["family"].as_str().map(|s| s.to_string()));
+    let mut sig: Vec<(Program, bool)> = vec![];
+    match (&ctx.replay, replay_family) {
+        (Some(_), Some(Some(f))) if f == "signal" => {
+            let p = progs[0].clone();
+            let pausing = pause_programs().contains(&p);
+            sig.push((p, pausing));
+        }
+        (Some(_), _) => {}
+        (None, _) => {
+            sig.extend(pause_programs().into_iter().map(|p| (p, true)));
+            sig.extend(programs().into_iter().filter(|p| !p.files[0].contains("infinite") && !p.files[0].contains("out_of_cycles")).map(|p| (p, false)));
+        }
+    }
+    let rs: Vec<Report> = sig
+        .par_iter()
+        .map(|(p, pausing)| match std::panic::catch_unwind(std::panic::AssertUnwindSafe(|| signal_family(ctx, p, &cons, *pausing))) {
+            Ok(r) => r,
+            Err(_) => {
+                let mut r = Report::new();
+                r.violation("signal/panic", format!("script verification panicked for {p:?}"), json!({"program": p, "family": "signal"}));
+                r
             }
         })
         .collect();
